@@ -43,7 +43,7 @@ def build_od():
         v = ODVariable(name, idx, 0)
         v.data_type = dt
         od.add_object(v)
-    for base, mbase in ((0x1400, 0x1600), (0x1800, 0x1A00)):
+    for base, mbase in ((0x1400, 0x1600), (0x1401, 0x1601), (0x1800, 0x1A00)):
         com = ODRecord(f"com{base:X}", base)
         od.add_object(com)
         for sub, dt in ((0, 0x5), (1, 0x7), (2, 0x5)):
@@ -179,6 +179,11 @@ def mk_node(drive, transport, nid=3, with_mode=False):
     def on_send(msg):
         if transport == "sdo_dis":
             return          # the drive's RPDO is switched off: it does not listen to PDO frames
+        if msg.arbitration_id == 0x300 + nid and not msg.is_remote_frame and with_mode == "split":
+            m = struct.unpack_from("<b", bytes(msg.data))[0]      # RPDO2 = modes of operation
+            drive.mode = m
+            drive.mode_writes.append(m)
+            return
         if msg.arbitration_id == 0x200 + nid and not msg.is_remote_frame:
             d = bytes(msg.data)
             if len(d) >= 3:                 # RPDO1 = controlword + modes of operation
@@ -205,7 +210,12 @@ def mk_node(drive, transport, nid=3, with_mode=False):
         rp, tp = node.rpdo[1], node.tpdo[1]
         rp.cob_id, rp.enabled = 0x200 + nid, True
         rp.add_variable(0x6040, 0)
-        if with_mode:
+        if with_mode == "split":
+            # controlword in RPDO1, modes of operation in RPDO2
+            rp2 = node.rpdo[2]
+            rp2.cob_id, rp2.enabled = 0x300 + nid, True
+            rp2.add_variable(0x6060, 0)
+        elif with_mode:
             rp.add_variable(0x6060, 0)
         tp.cob_id, tp.enabled = 0x180 + nid, True
         tp.add_variable(0x6041, 0)
@@ -259,8 +269,13 @@ def run_case(case: dict) -> dict:
         for mask in case["masks"]:
             for mode in case["modes"]:
                 drive = Drive([], "SWITCH ON DISABLED", False, None, mask)
-                net, node = mk_node(drive, case.get("transport", "sdo"))
+                if case.get("transport") == "pdo_split":
+                    net, node = mk_node(drive, "pdo", with_mode="split")
+                else:
+                    net, node = mk_node(drive, case.get("transport", "sdo"))
                 res = "ok"
+                import canopen.profiles.p402 as p402
+                p402.time.calls = 0
                 try:
                     node.op_mode = mode
                 except TypeError:
@@ -305,10 +320,16 @@ def sw_table(_case=None):
     import logging
     logging.disable(logging.CRITICAL)
     drive = Drive([], "SWITCH ON DISABLED", False, None)
-    net, node = mk_node(drive, "sdo")
+    via_pdo = _case == "pdo"
+    net, node = mk_node(drive, "pdo" if via_pdo else "sdo")
     rows = []
     for sw in range(65536):
-        drive.sw = lambda _v=sw: _v
+        if via_pdo:
+            # the statusword arrives in TPDO1; an SDO read of 0x6041 would tell another story
+            drive.sw = lambda: 0x0637
+            net.notify(0x180 + node.id, bytearray(struct.pack("<H", sw)), 0.0)
+        else:
+            drive.sw = lambda _v=sw: _v
         try:
             rows.append({"sw": sw, "state": node.state})
         except Exception as exc:  # noqa: decoding a statusword must not fail
